@@ -412,6 +412,19 @@ class Library:
         from . import idx as ix
 
         def np_array(v, dtype=None):
+            from .values import SymList
+            if isinstance(v, SymList):
+                if v.entry is None:
+                    raise OutOfReach("np.array of an abstract list without a closed form")
+                items, pl, ent = list(v.items), v.prefix_len, v.entry
+
+                def fn(vi):
+                    j = vi[0]
+                    res = ent(j)
+                    for t, it in enumerate(items):
+                        res = ix.ite(j == pl + t, it, res)
+                    return res
+                return ix.IArr.from_fn([pl + len(items)], fn)
             if isinstance(v, ix.IArr):
                 return v.copy()
             if isinstance(v, (list, tuple)):
